@@ -1,7 +1,7 @@
 """C07 — End-to-end fidelity: what bread prints is what the program logged."""
 import collections, concurrent.futures, glob, shutil, tempfile
 from vlib import *
-import gen_log, gen_wire as W, runner
+import gen_log, gen_wire as W, gen_tags, runner
 from mser_common import parse_fields
 
 DRIVERS = ['drv_reader']
@@ -161,6 +161,17 @@ def run(ctx):
         exp = 'ok ' + (want.encode('latin1').hex() or '-')
         R.add_prop([line], (lambda exp: lambda o: True if o[0] == exp else 'printed text differs from the documented rendering of the logged values: expected ' + bytes.fromhex(exp.split(' ')[1].replace('-', '')).decode('latin1')[:500])(exp),
                    'printed message differs from the documented rendering of the logged values', ['wire_oracle'], nontrivial=nt)
+    # user-defined recursive types with hand-written tags (a struct referring to itself by name, next to structs with prefix-related names):
+    # model vs code on the printed message (the model resolves the references; no python rendering for these)
+    for _ in range(ctx.n(200, 2000)):
+        line, _, interesting = gen_tags.make_case(rng)
+        _, th, bh = line.split(' ')
+        ents = [e_cs(0, 1000000000, 0, 0, b'UTC'), e_source(1, 128, b'cat', b'fn', b'file', 1, b'v={} after', bytes.fromhex(th)), e_event(1, 5, bytes.fromhex(bh))]
+        rl = 'print %s %s %s' % (hx(b'%m\n'), hx(b''), hx(b''.join(ents)))
+        R.add_corr(rl, ['wire_recursive_tag'], nontrivial=interesting)
+        exp = 'ok ' + ('v=' + gen_tags.make_case.last_text + ' after\n').encode('latin1').hex()
+        R.add_prop([rl], (lambda exp: lambda o: True if o[0] == exp else 'printed text of a recursive user-defined type differs from the documented rendering: expected ' + bytes.fromhex(exp.split(' ')[1]).decode('latin1')[:500])(exp),
+                   'printed message differs from the documented rendering of the logged values', ['wire_oracle_recursive'], nontrivial=interesting)
     w = R.execute()
     res['evaluations'] += w['evaluations']; res['distinct'] += w['distinct']; res['validated'] += w['validated']; res['violations'] += w['violations']; res['broken_what'] += w['broken_what']
     res['stats'] = dict(stats); res['stats'].update(w['stats']); res['samples'] = w['samples'][:2]
